@@ -278,7 +278,7 @@ PROPS = {
                  "the struct had before and distinct within the resulting Go struct (multi-name fields expand to several fields); plenc builds "
                  "a codec for every fully modelled top-level struct of the output; a second run changes nothing; -w=false leaves the file "
                  "alone. Malformed tags (or a multi-name field that cannot get unique indexes) => non-zero exit with a message and the file "
-                 "unchanged. Several files in one run (two or three, the later ones often the same layout with other tags so that fields sit at "
+                 "unchanged. One source in six is not gofmt-formatted (wide indentation, blank-line runs, trailing blanks). Several files in one run (two or three, the later ones often the same layout with other tags so that fields sit at "
                  "the same source positions): each file ends up exactly as a run on it alone leaves it, up to the first refused file, and the "
                  "standard output is the single runs' outputs in sequence. Non-trivial = a struct mixing tagged and untagged fields, a "
                  "multi-name field, or a non-top-level declaration; distinct by case hash."),
